@@ -158,7 +158,13 @@ where
         }
         Err(err) => {
             clean_on_error();
-            panic!("{:?}", err);
+            // All the elements have been dropped, only the allocation remains to be released
+            unsafe {
+                manually_drop.set_len(0);
+                ManuallyDrop::drop(&mut manually_drop);
+            }
+            // Let the caller see the original panic payload
+            std::panic::resume_unwind(err);
         }
     }
 }
